@@ -16,6 +16,7 @@ import mido.midifiles.midifiles as mf
 from mido import Message, MetaMessage, MidiFile, MidiTrack
 from mido.midifiles.meta import UnknownMetaMessage
 
+from ..ref import smf
 from .c13 import FakeTime
 
 ID = 'C16'
@@ -32,7 +33,7 @@ ASSUMPTIONS = [
     'the twin is built with the public constructor from copies of the messages; equality of results is exact because both files run the same code',
     'exceptions count as results: the edited file and the twin must raise the same exception class',
 ]
-DECIDING = ['observation == fresh twin', 'observation leaves the contents alone']
+DECIDING = ['observation == fresh twin', 'observation leaves the contents alone', 'saved bytes decode to the contents']
 TIMEOUT = {'quick': 300, 'thorough': 1800}
 
 
@@ -201,7 +202,9 @@ def do_edit(rng, mid):
     """Apply one documented edit; returns its name."""
     tracks = mid.tracks
     names = ['tracks.append', 'tracks.insert', 'add_track', 'add_track(name)', 'mid.tracks=', 'mid.type=',
-             'mid.ticks_per_beat=']
+             'mid.ticks_per_beat=', 'mid.tracks+=', 'mid.tracks=same', 'mid.tracks=copy']
+    if 0 < len(tracks) <= 3:
+        names += ['mid.tracks*=2', 'mid.tracks[:]=']
     if tracks:
         names += ['tracks.pop', 'tracks.remove', 'tracks.setitem', 'tracks.extend', 'track.append',
                   'track.insert', 'track.extend', 'track.name=', 'tracks.reverse', 'del tracks[i]'] * 1
@@ -226,6 +229,27 @@ def do_edit(rng, mid):
         mid.add_track(rng.choice(('lead', 'x')))
     elif e == 'mid.tracks=':
         mid.tracks = [rand_track(rng) for _ in range(rng.randrange(0, 3))]
+    elif e in ('mid.tracks+=', 'mid.tracks=same', 'mid.tracks=copy', 'mid.tracks*=2', 'mid.tracks[:]='):
+        # edits spelled through the attribute: list semantics, whatever object ends up bound to it
+        before = list(mid.tracks)
+        new = rand_track(rng, 2)
+        if e == 'mid.tracks+=':
+            mid.tracks += [new]
+            want = before + [new]
+        elif e == 'mid.tracks=same':
+            mid.tracks = mid.tracks
+            want = before
+        elif e == 'mid.tracks=copy':
+            mid.tracks = list(mid.tracks)
+            want = before
+        elif e == 'mid.tracks*=2':
+            mid.tracks *= 2
+            want = before * 2
+        else:
+            mid.tracks[:] = before + [new]
+            want = before + [new]
+        if not (len(mid.tracks) == len(want) and all(a is b for a, b in zip(mid.tracks, want))):
+            return f'{e} HAD NO EFFECT ON THE FILE or lost tracks: {len(before)} -> {len(mid.tracks)}, expected {len(want)}'
     elif e == 'mid.type=':
         mid.type = rng.choice((0, 1, 1, 1, 2))
     elif e == 'mid.ticks_per_beat=':
@@ -371,7 +395,12 @@ def _history(ctx, seed, maxsteps, rng, mid, log, own_path):
     case = lambda: {'kind': 'history', 'seed': seed, 'maxsteps': maxsteps}  # noqa: E731
     for i in range(steps):
         r = rng.random()
-        if r < 0.45:
+        if r < 0.03:
+            # not an edit of the file at all: the caller fiddles with results of mido's helper functions
+            from .. import gen
+            gen.run_quietly(gen.perturbations()[0][1])
+            log.append('other:caller-edits-helper-results')
+        elif r < 0.45:
             what = do_edit(rng, mid)
             if what == 'mid.type=':
                 shadow['type'] = mid.type
@@ -417,6 +446,20 @@ def _history(ctx, seed, maxsteps, rng, mid, log, own_path):
             if before != after:
                 return nontrivial
             want = observe(twin, what, f'{seed}:{i}')
+            if what == 'save' and isinstance(got, str):
+                # a successful save is also judged absolutely: the strict reference decoder reads the bytes
+                # back into the current contents (the twin shares every process-wide table and cache with
+                # the file it is compared to)
+                try:
+                    d = smf.decode_file(bytes.fromhex(got))
+                    want_ev = [smf.norm_track(smf.fold_eot(smf.events_of_track(tr, mid.charset))) for tr in mid.tracks]
+                    got_ev = [smf.norm_track(t) for t in d['tracks']]
+                    ctx.check('saved bytes decode to the contents', not d['flags'] and got_ev == want_ev
+                              and (d['format'], d['division']) == (mid.type, mid.ticks_per_beat), 'save-differs-from-reference', case,
+                              lambda: {'step': i, 'log': log[-8:], 'flags': d['flags'][:3], 'bytes': got[:160]})
+                except smf.Malformed as exc:
+                    ctx.check('saved bytes decode to the contents', False, 'save-malformed', case,
+                              lambda: {'step': i, 'log': log[-8:], 'why': str(exc), 'bytes': got[:160]})
             last_edit = next((x for x in reversed(log) if x.startswith('edit:')), 'edit:none')
             prev_obs = next((x for x in reversed(log) if x.startswith('obs:')), 'obs:none')
             ctx.check('observation == fresh twin', got == want,
